@@ -278,4 +278,30 @@ def Bay.trackThread (b : Bay) (mode sel inp : Nat) : Except Err (Bay × Nat) :=
         | .error e => .error e
         | .ok b2 => .ok (b2, out)
 
+/-! ### model_cpu.c -/
+
+/-- The `track_set_input` loop of `connect_cpu`: input `i`, `i+1`, … = the given channels. -/
+def Bay.setInputs (b : Bay) (mi : Nat) : Nat → List Nat → Except Err Bay
+  | _, [] => .ok b
+  | i, c :: cs =>
+    match b.muxSetInput mi i c with
+    | .error e => .error e
+    | .ok b' => Bay.setInputs b' mi (i + 1) cs
+
+/-- `connect_cpu` for one model channel of one CPU (`track_init`,
+    `track_set_select(track, th_running, NULL, nthreads)`, one `track_set_input`
+    per thread with its RAW channel at index gindex, `mux_set_default`).
+    Returns the output channel id. -/
+def Bay.trackCpu (b : Bay) (sel : Nat) (raws : List Nat) (dflt : Value) : Except Err (Bay × Nat) :=
+  let (b0, out) := b.register {}
+  match b0.muxInit sel out .byIndex raws.length with
+  | .error e => .error e
+  | .ok (b1, mi) =>
+    match b1.setInputs mi 0 raws with
+    | .error e => .error e
+    | .ok b2 =>
+      match b2.muxSetDefault mi dflt with
+      | .error e => .error e
+      | .ok b3 => .ok (b3, out)
+
 end Ovni.Emu
